@@ -117,6 +117,21 @@ Theorem C07_checkpoint_mismatch_exp : forall cfg p st pre h post s1 i H cid n1 l
   exists st', e_on_headers cfg p st (pre ++ h :: post) = (st', [Disconnect p]) /\ e_store st' = s2 /\ e_conn st' = false.
 Proof. exact checkpoint_mismatch_exp. Qed.
 
+
+(* ---- refuted for the default engine as it is (known finding C07-passed-checkpoint-fork-adopted): a branch contradicting an
+   ALREADY PASSED checkpoint that overtakes the tip is adopted, its sender kept and asked for more ---- *)
+Theorem C07_passed_checkpoint_fork_adopted_refuted :
+  let cfg := {| c_cps := [(3, 22%N)]; c_disable := false; c_forb := []; c_now := 0 |} in
+  let st0 := fst (on_new_peer cfg 0 (d_init cfg (init 1 (ex_pl 486604799))) 7 true 3) in
+  let st1 := fst (on_headers cfg st0 7 exA) in
+  let st2 := fst (on_new_peer cfg 0 st1 8 true 5) in
+  let '(st3, es) := on_headers cfg st2 8 exB in
+  d_next st1 = None /\ option_map id (tipB (d_store st1)) = Some 22%N /\
+  option_map id (tipB (d_store st3)) = Some 6%N /\
+  (exists r, by_hash (d_store st3) 4%N = Some r /\ height r = 3 /\ st r = Longest) /\
+  es = [GetHeaders 8 [6; 5; 4; 3; 2; 1]%N 0%N].
+Proof. exact passed_checkpoint_fork_adopted_refuted. Qed.
+
 (* ---- a matching header advances the cursor ---- *)
 Theorem C07_checkpoint_match_advances_default : forall cfg st p c hs s' fh H cid,
   aget p (d_states st) = Some c -> d_hfm st = true -> hs <> [] ->
@@ -236,6 +251,7 @@ Print Assumptions C07_rejected_peer_dropped_default.
 Print Assumptions C07_rejected_peer_dropped_exp.
 Print Assumptions C07_checkpoint_mismatch_default.
 Print Assumptions C07_checkpoint_mismatch_exp.
+Print Assumptions C07_passed_checkpoint_fork_adopted_refuted.
 Print Assumptions C07_checkpoint_match_advances_default.
 Print Assumptions C07_checkpoint_match_advances_default_least.
 Print Assumptions C07_no_checkpoint_left_zero_stop.
